@@ -9,11 +9,15 @@ Definition code_stress_rate : N := 14%N.
 Definition code_rate_truncated : N := 15%N.
 Definition code_trace_rate_zero : N := 16%N.
 Definition code_forward_set : N := 17%N.
+Definition code_rate_zero_forwarded : N := 18%N.
 
 (* kind: 0 on time, 1 from a decision record (late span / later stress span), 2 first stress span *)
 Definition judge_rate (kind : N) (x : out) (sp : span) (R : N) : codes :=
   let want := mul64 (maxone (s_rate sp)) R in
-  if (R <? 1)%N then [code_trace_rate_zero]
+  if N.eqb (o_rate x) 0 then
+    (* a forwarded SampleRate of 0 (and hence no final_sample_rate field) *)
+    [code_rate_zero_forwarded] ++ (if (R <? 1)%N then [code_trace_rate_zero] else [])
+  else if (R <? 1)%N then [code_trace_rate_zero]
   else if negb (N.eqb (o_rate x) want) then
     if N.eqb kind 1 && (two32 <=? R)%N && N.eqb (o_rate x) (mul64 (maxone (s_rate sp)) (R mod two32))
     then [code_rate_truncated]
